@@ -1,11 +1,11 @@
 #!/bin/bash
 # runs every registered quick check on the current /repo tree, regenerates the evidence, validates it
-cd /verif
+cd "$(dirname "$(readlink -f "$0")")"
 rc=0
 for id in $(python3 -c "import json; print(' '.join(c['property_id'] for c in json.load(open('MANIFEST.json'))['checks']))"); do
   out=$(timeout 1500 python3 cv.py check $id --tier ${1:-quick} 2>&1 | grep -v "^WARNING conda" | tail -4)
   echo "$out" | tail -1
   echo "$out" | grep -q "VIOLATION\|UNDECIDED" && { echo "$out"; rc=1; }
 done
-python3-vt validate.py | tail -1
+python3-vt /verif/validate.py | tail -1
 exit $rc
